@@ -5,6 +5,7 @@ import (
 	"go/ast"
 	"go/token"
 	"go/types"
+	"golang.org/x/tools/go/cfg"
 	"sort"
 	"strings"
 )
@@ -364,7 +365,7 @@ func (f *Fn) canon(e ast.Expr, depth int, busy map[types.Object]bool) string {
 			if !ok {
 				return x.Name
 			}
-			if st := f.Root().store; st != nil && d.expr != nil && d.kind != defParam && f.mentionsStored(d.expr, st, 0) {
+			if st := f.Root().store; st != nil && d.expr != nil && d.kind != defParam && f.definedBeforeRegion(d.expr) && f.mentionsStored(d.expr, st, 0) {
 				// the local was defined before the path started from an expression whose variables were
 				// assigned again on this path: its value is the one at definition time, not the expansion's
 				return x.Name
@@ -571,6 +572,36 @@ func (f *Fn) constNames(e ast.Expr, depth int) ([]string, bool) {
 	}
 	sort.Strings(out)
 	return out, true
+}
+
+// definedBeforeRegion: a path enumeration is in progress and the defining expression is not reachable
+// from its start, i.e. the local got its value before the enumerated region was entered.
+func (f *Fn) definedBeforeRegion(def ast.Expr) bool {
+	r := f.Root()
+	if r.execFrom == nil || r.execGraph == nil || r.execGraph.Fn != f {
+		return false
+	}
+	if r.regionCache == nil {
+		r.regionCache = map[*cfg.Block]bool{}
+		var walk func(b *cfg.Block)
+		walk = func(b *cfg.Block) {
+			for _, s := range b.Succs {
+				if !r.regionCache[s] {
+					r.regionCache[s] = true
+					walk(s)
+				}
+			}
+		}
+		walk(r.execFrom.B)
+	}
+	loc := r.execGraph.Locate(def)
+	if !loc.Valid() {
+		return false
+	}
+	if loc.B == r.execFrom.B && loc.I >= r.execFrom.I {
+		return false
+	}
+	return !r.regionCache[loc.B]
 }
 
 // mentionsStored: e reads (directly or through single-definition locals) a variable that the current
